@@ -647,7 +647,7 @@ func keyOf(addr *types.Address) *harness.Key {
 	if addr == nil {
 		return nil
 	}
-	cands := []*harness.Key{harness.Pauper(), harness.DetKey("empty-account"), harness.DetKey("poor-deployer")}
+	cands := []*harness.Key{harness.Pauper(), harness.DetKey("empty-account"), harness.DetKey("poor-deployer"), harness.DetKey("tight-sender")}
 	for i := 0; i < 4; i++ {
 		cands = append(cands, harness.User(i), harness.AdminKey(i))
 	}
@@ -797,6 +797,12 @@ func mon07Case(w *vlog.W, a *wargs, id int, rng *rand.Rand, opts harness.Options
 			}
 			got := world.R.ViewL.GetBalance(f)
 			w.Count("obs_failed_tx_fee_checks:"+kind, 1)
+			if kind == "bvm" && got.Sign() == 0 && strings.Contains(string(rc.Ret), "insufficient balance") {
+				// the body ran, what it left did not cover the fee: the statement's "whole remaining balance if it
+				// cannot cover the fee" - the restored balance is taken in full even when it exceeds the fee
+				w.Count("obs_failed_tx_whole_balance_taken", 1)
+				continue
+			}
 			if got.Cmp(want) != 0 {
 				viol("failed-tx:balance-effect-beyond-fee:"+kind, fmt.Sprintf("block %d tx %d (%s) FAILED with gas used %d at price %v: its sender %s had %v before the block and has %v after it, nonce-and-fee only would leave %v; receipt: %.80s", h, i, describeTx(txs[i]), rc.GasUsed, price, f.String(), preBal[f.String()], got, want, string(rc.Ret)), map[string]interface{}{"block": descs})
 			}
@@ -899,6 +905,33 @@ func mon07Case(w *vlog.W, a *wargs, id int, rng *rand.Rand, opts harness.Options
 			}
 			return false
 		})
+		// value: replacing failed transactions by null failures moves fees between senders and admins but neither
+		// creates nor destroys anything beyond the fee split's rounding (less than one unit per admin and tx)
+		if consistent {
+			sumOf := func(d map[string][]byte) *big.Int {
+				t := new(big.Int)
+				for k, v := range d {
+					if strings.HasPrefix(k, "account-") {
+						x := &ledger2.InnerAccount{Balance: big.NewInt(0)}
+						if x.Unmarshal(v) == nil && x.Balance != nil {
+							t.Add(t, x.Balance)
+						}
+					}
+				}
+				return t
+			}
+			gap := new(big.Int).Sub(sumOf(d1), sumOf(d2))
+			w.Count("obs_failed_tx_value_checks", 1)
+			if bound := big.NewInt(int64(2 * (len(admins) + 4) * (len(txs) + 1))); new(big.Int).Abs(gap).Cmp(bound) > 0 {
+				var fd []string
+				for i := range txs {
+					if failedIdx[uint64(i)] {
+						fd = append(fd, descs[i]+" ret="+fmt.Sprintf("%.80q", string(res.Receipts[i].Ret)))
+					}
+				}
+				viol("failed-tx:value-created-or-destroyed", fmt.Sprintf("block %d: the total of all balances is %s with the FAILED transactions and would be %s more without them (null failures of the same senders); failed txs: %v", h, sumOf(d1), new(big.Int).Neg(gap), fd), map[string]interface{}{"block": descs})
+			}
+		}
 		if len(diffs) > 0 {
 			if !consistent {
 				// a surviving tx behaved differently in the shadow: it depended on state the failed tx changed
